@@ -74,6 +74,27 @@
 // (the connection died) and "stale" (the connection was re-established before
 // the node processed the notification, so its streams are alive).
 //
+// Abandoned notifications (wave 12). The property quantifies over "concurrent
+// SendRequest/SendMessage/OnDisconnect calls" and "any mix of ... context
+// cancellations and disconnect notifications", and OnDisconnect takes a
+// context of its own. Besides the notifications that travel over the event
+// bus (whose context is the node's and lives as long as the run) the scenario
+// therefore calls OnDisconnect directly, the way a user of the exported
+// MessageSenderWithDisconnect does, with a context the scenario owns, and
+// ends that context at a drawn later moment - at once, or some steps later,
+// while the notification may still be waiting behind the exchange in flight
+// and the callers queued after it. No new rule: a notification whose caller
+// gave up must not disturb the exchanges it was waiting behind, so `pipelined`
+// ("serialized"), the pairing rules and `failed-stream-open` keep judging
+// those exchanges unchanged. Only the stream count ("at most one stream") of
+// a peer goes to a rule id of its own, two-streams-after-abandoned-disconnect
+// (open known finding), once a notification for it was abandoned while a
+// request it found running had not returned: the per-peer state it dropped is
+// then never invalidated and keeps its stream next to the new one
+// (probe_streams_after_abandoned_notification; in the DHT itself the context
+// is the node's and ends only at shutdown). Everything else about that peer
+// keeps going to the ordinary rules.
+//
 // Remote misbehaviour (fault levels 1 and 2), always in reaction to a request
 // the remote received: instead of (or before) its honest reply it writes a
 // junk frame - well delimited but not a DHT message (invalid wire data, a
@@ -129,7 +150,8 @@ func init() {
 			"fault_disconnect_stale", "probe_disconnect_inflight", "probe_disconnect_queued", "probe_same_key_concurrent", "probe_epilogue_after_disconnect",
 			"fault_junk_frame", "fault_request_forgotten", "fault_long_stall", "probe_junk_then_reply", "probe_junk_made_sender_reset", "probe_decode_error_returned",
 			"probe_deadline_request", "probe_stall_under_far_deadline", "probe_deadline_expired",
-			"fault_damaged_reply", "probe_success_after_damaged_reply", "probe_reply_peers_compared"},
+			"fault_damaged_reply", "probe_success_after_damaged_reply", "probe_reply_peers_compared",
+			"fault_notification_direct", "fault_notification_abandoned", "probe_abandoned_with_queued_caller", "probe_streams_after_abandoned_notification"},
 	})
 }
 
@@ -328,6 +350,10 @@ func runC11(s *sim.Sim) {
 		panic(err)
 	}
 	snd := d.MessageSender()
+	disc, ok := snd.(pb.MessageSenderWithDisconnect)
+	if !ok {
+		panic("c11: the node's message sender takes no disconnect notifications")
+	}
 	s.Quiesce()
 	emConn, err := h.RealBus().Emitter(new(event.EvtPeerConnectednessChanged))
 	if err != nil {
@@ -408,6 +434,35 @@ func runC11(s *sim.Sim) {
 	// excused[p]: the requests to p that were in flight or queued (started, not
 	// returned) when a disconnect notification for p arrived
 	excused := map[peer.ID]map[int]bool{}
+	// notifications delivered by a direct OnDisconnect call under a context of
+	// their own; abandoned[p]: such a context ended while a request that was
+	// running when the notification arrived had not returned
+	type c11Note struct {
+		peer    *simnet.Peer
+		cancel  context.CancelFunc
+		ended   bool
+		running []int
+	}
+	var notes []*c11Note
+	abandoned := map[peer.ID]bool{}
+	abandonedSeen := map[peer.ID]bool{}
+	endNote := func(n *c11Note) {
+		n.ended = true
+		still := 0
+		for _, id := range n.running {
+			if !reqs[id].done {
+				still++
+			}
+		}
+		if still > 0 {
+			abandoned[n.peer.ID] = true
+			s.Count("fault_notification_abandoned")
+		}
+		if still > 1 {
+			s.Count("probe_abandoned_with_queued_caller")
+		}
+		n.cancel()
+	}
 	feedRemote := func() {
 		for _, p := range pairs {
 			data, _, _ := p.b.TakeDelivered()
@@ -437,6 +492,16 @@ func runC11(s *sim.Sim) {
 				if p.a.Remote == q.ID && p.a.IsOpen() {
 					n++
 				}
+			}
+			if n > 1 && abandoned[q.ID] {
+				// classified separately (open known finding), see "abandoned
+				// notifications" in the header comment
+				if !abandonedSeen[q.ID] {
+					abandonedSeen[q.ID] = true
+					s.Count("probe_streams_after_abandoned_notification")
+				}
+				s.Violate("two-streams-after-abandoned-disconnect", "abandoned disconnect notification: %d open streams to %s at a quiescent point after the context of a disconnect notification for that peer ended while the notification waited for the per-peer lock and a request it found running had not returned: the per-peer state it dropped was never invalidated and keeps a stream next to the new one", n, q.Name)
+				continue
 			}
 			if n > 1 {
 				var waiting []int
@@ -767,7 +832,7 @@ func runC11(s *sim.Sim) {
 			for _, q := range u.Peers {
 				q := q
 				if h.Net().Connectedness(q.ID) == network.Connected {
-					acts = append(acts, sim.Action{ID: "zdisconnect:" + q.Name, Do: func() {
+					notify := func(direct bool) {
 						// stale: the notification of a connection loss that is processed
 						// only after the connection was re-established - the streams the
 						// node has to that peer at this moment are alive and stay so
@@ -801,8 +866,40 @@ func runC11(s *sim.Sim) {
 							}
 							h.Net().SetConnected(q.ID, false)
 						}
-						_ = emConn.Emit(event.EvtPeerConnectednessChanged{Peer: q.ID, Connectedness: network.NotConnected})
-					}})
+						if !direct {
+							_ = emConn.Emit(event.EvtPeerConnectednessChanged{Peer: q.ID, Connectedness: network.NotConnected})
+							return
+						}
+						// the notification arrives by a direct call, under a context of
+						// its own that ends at once (after the node has settled: the
+						// notification is waiting for the per-peer state or is through
+						// with it) or at a later step
+						s.Count("fault_notification_direct")
+						ctx, cancel := context.WithCancel(context.Background())
+						n := &c11Note{peer: q, cancel: cancel}
+						for _, r := range reqs {
+							if r.peer == q && r.started && !r.done {
+								n.running = append(n.running, r.id)
+							}
+						}
+						notes = append(notes, n)
+						disc.OnDisconnect(ctx, q.ID)
+						if s.Chance("notification-context-ends-at-once", 1, 2) {
+							s.Quiesce()
+							endNote(n)
+						}
+					}
+					acts = append(acts, sim.Action{ID: "zdisconnect:" + q.Name, Do: func() { notify(false) }})
+					acts = append(acts, sim.Action{ID: "znotify:" + q.Name, Do: func() { notify(true) }})
+				}
+			}
+		}
+		if faultLevel > 0 {
+			// the context of a directly delivered notification ends
+			for k, n := range notes {
+				n := n
+				if !n.ended {
+					acts = append(acts, sim.Action{ID: fmt.Sprintf("znote-end:%d", k), Do: func() { endNote(n) }})
 				}
 			}
 		}
@@ -929,6 +1026,10 @@ func runC11(s *sim.Sim) {
 	// release clients that were never started, cancel everything, close
 	for _, r := range reqs {
 		r.cancel()
+	}
+	s.Quiesce()
+	for _, n := range notes {
+		n.cancel()
 	}
 	for _, p := range s.ParkedKind("client") {
 		s.Release(p, nil)
